@@ -42,34 +42,37 @@ pub fn is_canonical_spelling(url: &str) -> bool {
 impl Exec<'_> {
     fn exec(&mut self, file: usize) -> Verdict {
         for s in &self.g.files[file].stmts {
-            if let Stmt::Load { kind, target, url, .. } = s {
-                self.loads += 1;
-                if self.loads > CAP {
-                    return Verdict::TooBig;
-                }
-                let alias = !is_canonical_spelling(url);
-                if let Some(pos) = self.in_progress.iter().position(|(f, _)| f == target) {
-                    self.closing = Some((file, *target, *kind));
-                    self.cycle_kinds =
-                        self.in_progress[pos + 1..].iter().filter_map(|(_, k)| k.map(|k| k.0)).collect();
-                    self.cycle_kinds.push(*kind);
-                    self.cycle_alias = alias
-                        || self.in_progress[pos + 1..].iter().any(|(_, k)| k.is_some_and(|k| k.1));
-                    return Verdict::Loop;
-                }
-                if kind.is_module() && self.cache_modules {
-                    if self.loaded[*target] {
+            if let Stmt::Load { kind, target, url, wrap, .. } = s {
+                let times = if *wrap == Wrap::Each { 2 } else { 1 };
+                for _ in 0..times {
+                    self.loads += 1;
+                    if self.loads > CAP {
+                        return Verdict::TooBig;
+                    }
+                    let alias = !is_canonical_spelling(url);
+                    if let Some(pos) = self.in_progress.iter().position(|(f, _)| f == target) {
+                        self.closing = Some((file, *target, *kind));
+                        self.cycle_kinds = self.in_progress[pos + 1..]
+                            .iter()
+                            .filter_map(|(_, k)| k.map(|k| k.0))
+                            .collect();
+                        self.cycle_kinds.push(*kind);
+                        self.cycle_alias = alias
+                            || self.in_progress[pos + 1..].iter().any(|(_, k)| k.is_some_and(|k| k.1));
+                        return Verdict::Loop;
+                    }
+                    if kind.is_module() && self.cache_modules && self.loaded[*target] {
                         continue;
                     }
-                }
-                self.in_progress.push((*target, Some((*kind, alias))));
-                let v = self.exec(*target);
-                if v != Verdict::Ok {
-                    return v;
-                }
-                self.in_progress.pop();
-                if kind.is_module() {
-                    self.loaded[*target] = true;
+                    self.in_progress.push((*target, Some((*kind, alias))));
+                    let v = self.exec(*target);
+                    if v != Verdict::Ok {
+                        return v;
+                    }
+                    self.in_progress.pop();
+                    if kind.is_module() {
+                        self.loaded[*target] = true;
+                    }
                 }
             }
         }
